@@ -192,7 +192,15 @@ def run(ctx, host=None):
         chk.bad(R2, fun.qualname, 'skip_if_missing', 'skip_if_missing guards something other than exactly the MISSING yields', where=f'{fun.module.relpath}:{fun.lineno}')
     ho = prog.fn('container:Container.has_objects')
     ret = [n for n in walk_local(ho.node) if isinstance(n, ast.Return)][-1]
-    if isinstance(ret.value, ast.ListComp) and norm(ret.value.generators[0].iter) == ho.params[0] and isinstance(ret.value.elt, ast.Compare) and isinstance(ret.value.elt.ops[0], ast.In):
+    rebound = [n for n in walk_local(ho.node) if isinstance(n, ast.Name) and isinstance(n.ctx, (ast.Store, ast.Del)) and n.id == ho.params[0]] \
+        + [n for n in walk_local(ho.node) if isinstance(n, ast.Call) and isinstance(n.func, ast.Attribute) and norm(n.func.value) == ho.params[0]
+           and n.func.attr in ('sort', 'remove', 'pop', 'clear', 'reverse', 'append', 'extend', 'insert')]
+    gen0 = ret.value.generators[0] if isinstance(ret.value, ast.ListComp) else None
+    if rebound:
+        chk.bad(R2, ho.qualname, norm(rebound[0])[:80], f'has_objects rebinds or mutates its request list `{ho.params[0]}` before answering: the answers no longer line up with the list the caller passed '
+                '(repeated keys, order)', where=f'{ho.module.relpath}:{rebound[0].lineno}')
+    elif gen0 is not None and len(ret.value.generators) == 1 and not gen0.ifs and isinstance(gen0.target, ast.Name) and norm(gen0.iter) == ho.params[0] and isinstance(ret.value.elt, ast.Compare) \
+            and len(ret.value.elt.ops) == 1 and isinstance(ret.value.elt.ops[0], ast.In) and norm(ret.value.elt.left) == gen0.target.id:
         chk.ok(R2, ho.qualname, norm(ret), detail='one answer per element of the original list, in order (repeats included)')
     else:
         chk.bad(R2, ho.qualname, norm(ret), 'has_objects no longer answers element-wise over the original list', where=f'{ho.module.relpath}:{ret.lineno}')
